@@ -105,6 +105,44 @@ func TestVX_C10_SM2(t *testing.T) {
 					r.Shape(fmt.Sprintf("%s:k%d:l%d:o%d", name, ki, l, oi))
 					r.Sample(cs)
 				}
+				// buffer reuse history: the caller refills the *same* buffers with another user's data of the same lengths and
+				// calls again; the answers must be those of the new contents (nothing may be remembered by buffer identity)
+				{
+					d2 := b32(modN(bi(vx.Fill(fmt.Sprintf("c10d2-%d", ki), 32))))
+					px2, py2 := sm2ref.Pub(bi(d2))
+					id2, msg2 := vx.Fill("c10id-second", l), vx.Fill("c10msg-second", l)
+					za2, _ := sm2ref.ZA(id2, px2, py2)
+					e2 := sm2ref.E(za2[:], msg2)
+					sg2, err := sm2ref.Sign(stream(k), bi(d2), e2[:])
+					if err == nil {
+						copy(d, d2)
+						copy(px, px2)
+						copy(py, py2)
+						copy(id, id2)
+						copy(msg, msg2)
+						copy(za, za2[:])
+						copy(e, e2[:])
+						copy(rr, sg2.R)
+						copy(ss, sg2.S)
+						want2 := map[string]string{
+							"DerivePublic": fmt.Sprintf("%x %x <nil>", px2, py2), "CheckOnCurve": "true", "TestPrivateKey": "0",
+							"ZA": fmt.Sprintf("%x <nil>", za2), "Sign": fmt.Sprintf("%x %x <nil>", sg2.R, sg2.S), "SignZa": fmt.Sprintf("%x %x <nil>", sg2.R, sg2.S),
+							"SignHashed": fmt.Sprintf("%x %x <nil>", sg2.R, sg2.S), "Verify": "true <nil>", "VerifyZa": "true <nil>", "VerifyHashed": "true <nil>",
+						}
+						for _, name := range []string{"DerivePublic", "CheckOnCurve", "TestPrivateKey", "ZA", "Sign", "SignZa", "SignHashed", "Verify", "VerifyZa", "VerifyHashed"} {
+							r.Eval(1)
+							var a string
+							kind, m := vx.Try(func() { a = calls[name]() })
+							cs := map[string]interface{}{"fn": name, "key": ki, "len": l, "order": oi, "history": "refill"}
+							if kind != "" {
+								r.Violation("buf:sm2:"+name+":refill-panic", m, cs)
+							} else if a != want2[name] {
+								r.Violation("buf:sm2:"+name+":stale-after-refill", fmt.Sprintf("%s after the caller refilled the same buffers with other data returned %s, expected %s", name, a, want2[name]), cs)
+							}
+							r.Shape(fmt.Sprintf("refill:%s:k%d:l%d:o%d", name, ki, l, oi))
+						}
+					}
+				}
 			}
 		}
 	}
